@@ -83,15 +83,18 @@ type c14Sub struct {
 }
 
 type c14Op struct {
-	K     string   `json:"k"` // sub | unsub | disc | pub
+	K     string   `json:"k"` // sub | unsub | disc | conn | pub
 	Subs  []c14Sub `json:"subs,omitempty"`
 	T     string   `json:"t,omitempty"`
+	B     bool     `json:"b,omitempty"` // disc: broker-initiated (Client.close() first, teardown afterwards)
+	P     bool     `json:"p,omitempty"` // conn: cleanSession=false
 	GapUs int64    `json:"gap_us,omitempty"`
 }
 
 type c14Task struct {
-	ID  string  `json:"id"`
-	Ops []c14Op `json:"ops"`
+	ID      string  `json:"id"`
+	Persist bool    `json:"persist,omitempty"` // cleanSession=false for connections made implicitly by sub/unsub
+	Ops     []c14Op `json:"ops"`
 }
 
 type c14Scenario struct {
@@ -280,7 +283,7 @@ func c14Gen(rng *sim.Rand, tier string) interface{} {
 		return out
 	}
 	for c := 0; c < nc; c++ {
-		t := c14Task{ID: fmt.Sprintf("c%d", c)}
+		t := c14Task{ID: fmt.Sprintf("c%d", c), Persist: rng.Bool(0.4)}
 		n := rng.Range(per/2+1, per+per/2+1)
 		for i := 0; i < n; i++ {
 			op := c14Op{GapUs: gap()}
@@ -288,7 +291,7 @@ func c14Gen(rng *sim.Rand, tier string) interface{} {
 			var pSub, pUnsub, pDisc int
 			switch mix {
 			case 0:
-				pSub, pUnsub, pDisc = 40, 25, 6
+				pSub, pUnsub, pDisc = 40, 22, 9
 			case 1:
 				pSub, pUnsub, pDisc = 35, 35, 12
 			default:
@@ -300,7 +303,13 @@ func c14Gen(rng *sim.Rand, tier string) interface{} {
 			case x < pSub+pUnsub:
 				op.K, op.Subs = "unsub", list(6, 15)
 			case x < pSub+pUnsub+pDisc:
-				op.K = "disc"
+				op.K, op.B = "disc", rng.Bool(0.35)
+				if rng.Bool(0.75) {
+					// reconnect explicitly (otherwise the next sub/unsub connects with the task's default)
+					t.Ops = append(t.Ops, op)
+					op = c14Op{K: "conn", P: t.Persist != rng.Bool(0.2), GapUs: gap()}
+					i++
+				}
 			default:
 				op.K, op.T = "pub", g.topic()
 			}
@@ -381,10 +390,41 @@ type c14Ref struct {
 	subs    map[string]map[string]*c14Ent
 	zomb    map[string]map[string]*c14Zombie
 	removed map[string]map[string]bool
+	// sessions (MQTT 3.1.1 §3.1.2.4): persist = the current/last connection's
+	// session is a cleanSession=false one; stored = the subscriptions such a
+	// session holds while its client is away (filter -> QoS of the last subscribe)
+	persist map[string]bool
+	stored  map[string]map[string]byte
+	requal  map[string]map[string]bool // filter was re-subscribed with another QoS since it was first taken
 }
 
 func c14NewRef() *c14Ref {
-	return &c14Ref{subs: map[string]map[string]*c14Ent{}, zomb: map[string]map[string]*c14Zombie{}, removed: map[string]map[string]bool{}}
+	return &c14Ref{subs: map[string]map[string]*c14Ent{}, zomb: map[string]map[string]*c14Zombie{}, removed: map[string]map[string]bool{},
+		persist: map[string]bool{}, stored: map[string]map[string]byte{}, requal: map[string]map[string]bool{}}
+}
+
+// connect: a cleanSession=false connection finding a stored cleanSession=false
+// session gets its subscriptions back; any other combination starts empty and
+// discards what was stored.
+func (m *c14Ref) connect(id string, persist bool) (restored, requalified int, discarded bool) {
+	m.client(id)
+	st := m.stored[id]
+	delete(m.stored, id)
+	m.persist[id] = persist
+	if !persist || st == nil {
+		discarded = len(st) > 0
+		m.requal[id] = map[string]bool{}
+		return
+	}
+	for _, f := range c14Keys(st) {
+		m.subs[id][f] = &c14Ent{qos: map[byte]bool{st[f]: true}, definite: true}
+		delete(m.zomb[id], f)
+		restored++
+		if m.requal[id][f] {
+			requalified++
+		}
+	}
+	return
 }
 
 func (m *c14Ref) client(id string) {
@@ -392,6 +432,7 @@ func (m *c14Ref) client(id string) {
 		m.subs[id] = map[string]*c14Ent{}
 		m.zomb[id] = map[string]*c14Zombie{}
 		m.removed[id] = map[string]bool{}
+		m.requal[id] = map[string]bool{}
 	}
 }
 
@@ -399,6 +440,7 @@ func (m *c14Ref) subscribe(id, f string, q byte) (resub bool) {
 	m.client(id)
 	if e := m.subs[id][f]; e != nil && e.definite && !e.qos[q] {
 		resub = true
+		m.requal[id][f] = true
 	}
 	m.subs[id][f] = &c14Ent{qos: map[byte]bool{q: true}, definite: true}
 	delete(m.zomb[id], f)
@@ -431,6 +473,7 @@ func (m *c14Ref) unsubscribe(id, f string) (was bool) {
 	}
 	delete(m.subs[id], f)
 	delete(m.zomb[id], f)
+	delete(m.requal[id], f)
 	return
 }
 
@@ -461,10 +504,18 @@ func (m *c14Ref) zombify(id, f, kind string) {
 // (left tells, a white-box lookup used for attribution only) becomes a zombie.
 func (m *c14Ref) disconnect(id string, left func(f string) bool) (had int) {
 	m.client(id)
+	if m.persist[id] {
+		m.stored[id] = map[string]byte{}
+	}
 	for _, f := range c14Keys(m.subs[id]) {
 		e := m.subs[id][f]
 		if e.definite {
 			had++
+			if m.persist[id] {
+				for q := range e.qos { // a definite entry has exactly one QoS: that of the last subscribe
+					m.stored[id][f] = q
+				}
+			}
 		}
 		if !e.definite && left(f) {
 			m.zombify(id, f, "subscribe")
@@ -611,9 +662,11 @@ func c14Exec(r *sim.Run, sci interface{}) {
 	for _, t := range sc.Tasks {
 		nops += len(t.Ops) + 2
 	}
-	b := &Broker{egName: "eg", name: "mqtt"}
+	b := &Broker{egName: "eg", name: "mqtt", clients: map[string]*Client{}}
 	b.topicMgr = newTopicManager(cache)
-	b.sessMgr = &SessionManager{broker: b, store: newStorage(nil), storeCh: make(chan SessionStore, 4*nops+64), done: make(chan struct{})}
+	b.sessMgr = newSessionManager(b, newStorage(nil)) // real doStore goroutine: sessions are persisted to the mock storage
+	defer b.sessMgr.close()
+	_ = nops
 	mgr := b.topicMgr
 
 	ref := c14NewRef()
@@ -908,21 +961,61 @@ func c14Exec(r *sim.Run, sci interface{}) {
 	}
 
 	conns := map[string]*c14Conn{}
-	connect := func(id string) *c14Conn {
+	persistOf := map[string]bool{}
+	// connect does what Broker.handleConn does between the CONNECT packet and
+	// the start of the read loop, with the real functions: register the client,
+	// Broker.setSession (reuse the stored session iff both are cleanSession=false),
+	// Session.updateEGName, and re-install the session's subscriptions with
+	// TopicManager.subscribe(session.allSubscribes()).
+	connect := func(id string, persist bool) *c14Conn {
 		if cn := conns[id]; cn != nil {
 			return cn
 		}
 		pkt := packets.NewControlPacket(packets.Connect).(*packets.ConnectPacket)
 		pkt.ClientIdentifier = id
-		pkt.CleanSession = true
-		c := newClient(pkt, b, nil, nil)
-		s := &Session{}
-		s.init(b.sessMgr, b, pkt) // newSessionFromConn without the resend ticker goroutine
-		b.sessMgr.sessionMap.Store(id, s)
-		c.session = s
-		cn := &c14Conn{c, s}
+		pkt.CleanSession = !persist
+		var c *Client
+		inv := r.Seq()
+		ok := call("connect (setSession + restore of session subscriptions)", func() {
+			c = newClient(pkt, b, nil, nil)
+			b.Lock()
+			b.clients[id] = c
+			b.setSession(c, pkt)
+			b.Unlock()
+			c.session.updateEGName(b.egName, b.name)
+			topics, qoss, _ := c.session.allSubscribes()
+			if len(topics) > 0 {
+				if err := b.topicMgr.subscribe(topics, qoss, id); err != nil {
+					violate("C14.restore-error", "%s: re-installing the stored session's subscriptions %v failed: %v", id, topics, err)
+				}
+			}
+		})
+		if !ok || c == nil || c.session == nil {
+			return nil
+		}
+		ret := r.Seq()
+		cn := &c14Conn{c, c.session}
 		conns[id] = cn
-		ref.client(id)
+		restored, requalified, discarded := ref.connect(id, persist)
+		if restored > 0 {
+			r.Probe("conn.persistent_session_restored_subscriptions")
+		}
+		if requalified > 0 {
+			r.Probe("conn.restored_filter_had_been_resubscribed_with_other_qos")
+		}
+		if discarded {
+			r.Probe("conn.stored_session_discarded")
+		}
+		mode := "clean"
+		if persist {
+			mode = "persist"
+		}
+		hist = append(hist, c14Rec{id, "conn(" + mode + ")", inv, ret, fmt.Sprintf("restored %d", restored)})
+		r.Eventf("%s conn %s -> restored %d (%d,%d)", id, mode, restored, inv, ret)
+		afterMutation(id)
+		if fatal {
+			return nil
+		}
 		return cn
 	}
 	drain := func(c *Client) (suback *packets.SubackPacket, unsuback *packets.UnsubackPacket) {
@@ -968,7 +1061,10 @@ func c14Exec(r *sim.Run, sci interface{}) {
 		if len(fs) == 0 {
 			return
 		}
-		cn := connect(id)
+		cn := connect(id, persistOf[id])
+		if cn == nil {
+			return
+		}
 		pkt := packets.NewControlPacket(packets.Subscribe).(*packets.SubscribePacket)
 		mid++
 		pkt.MessageID = mid
@@ -1035,7 +1131,10 @@ func c14Exec(r *sim.Run, sci interface{}) {
 		if len(fs) == 0 {
 			return
 		}
-		cn := connect(id)
+		cn := connect(id, persistOf[id])
+		if cn == nil {
+			return
+		}
 		pkt := packets.NewControlPacket(packets.Unsubscribe).(*packets.UnsubscribePacket)
 		mid++
 		pkt.MessageID = mid
@@ -1111,13 +1210,23 @@ func c14Exec(r *sim.Run, sci interface{}) {
 		afterMutation(id)
 	}
 
-	doDisc := func(id string) {
+	// doDisc: the teardown readLoop's deferred cleanup performs (closeAndDelSession,
+	// Broker.removeClient); brokerInitiated: the broker closed the client before
+	// (Client.close(): take-over, admin session deletion, pipeline Disconnect) and
+	// the connection teardown follows.
+	doDisc := func(id string, brokerInitiated bool) {
 		cn := conns[id]
 		if cn == nil {
 			return
 		}
 		inv := r.Seq()
-		if !call("closeAndDelSession", func() { cn.c.closeAndDelSession() }) {
+		if !call("closeAndDelSession", func() {
+			if brokerInitiated {
+				cn.c.close()
+			}
+			cn.c.closeAndDelSession()
+			b.removeClient(id)
+		}) {
 			return
 		}
 		ret := r.Seq()
@@ -1129,8 +1238,18 @@ func c14Exec(r *sim.Run, sci interface{}) {
 			}
 			nRemovedLive += had
 		}
-		hist = append(hist, c14Rec{id, "disc", inv, ret, fmt.Sprint(had)})
-		r.Eventf("%s disc -> removed %d (%d,%d)", id, had, inv, ret)
+		what := "disc"
+		if brokerInitiated {
+			what = "disc(broker-closed-first)"
+			if had > 0 {
+				r.Probe("disc.broker_initiated_with_live_subscriptions")
+			}
+		}
+		if ref.persist[id] && had > 0 {
+			r.Probe("disc.persistent_session_keeps_subscriptions")
+		}
+		hist = append(hist, c14Rec{id, what, inv, ret, fmt.Sprint(had)})
+		r.Eventf("%s %s -> removed %d (%d,%d)", id, what, had, inv, ret)
 		afterMutation(id)
 	}
 
@@ -1141,6 +1260,7 @@ func c14Exec(r *sim.Run, sci interface{}) {
 			continue
 		}
 		seenID[t.ID] = true
+		persistOf[t.ID] = t.Persist
 		r.Go(t.ID, func() {
 			for _, op := range t.Ops {
 				if fatal || r.Aborted() {
@@ -1161,7 +1281,11 @@ func c14Exec(r *sim.Run, sci interface{}) {
 				case "unsub":
 					doUnsub(t.ID, op.Subs)
 				case "disc":
-					doDisc(t.ID)
+					doDisc(t.ID, op.B)
+				case "conn":
+					if conns[t.ID] == nil {
+						connect(t.ID, op.P)
+					}
 				case "pub":
 					doPub(t.ID, op.T, "pub")
 				}
@@ -1206,7 +1330,7 @@ func c14Exec(r *sim.Run, sci interface{}) {
 		if fatal {
 			return
 		}
-		doDisc(id)
+		doDisc(id, false)
 	}
 	if fatal {
 		return
